@@ -3,8 +3,6 @@ package openapi3gen
 import (
 	"reflect"
 	"strings"
-	"unicode"
-	"unicode/utf8"
 )
 
 // theFieldInfo contains information about JSON serialization of a field.
@@ -22,13 +20,21 @@ type theFieldInfo struct {
 	nameFromTag bool
 }
 
-func appendFields(fields []theFieldInfo, parentIndex []int, t reflect.Type) []theFieldInfo {
+// ancestors are the struct types whose embedded fields led here: a type that embeds (a pointer to)
+// itself is not descended into again (encoding/json ignores such a field too).
+func appendFields(fields []theFieldInfo, parentIndex []int, t reflect.Type, ancestors ...reflect.Type) []theFieldInfo {
 	if t.Kind() == reflect.Ptr {
 		t = t.Elem()
 	}
 	if t.Kind() != reflect.Struct {
 		return fields
 	}
+	for _, ancestor := range ancestors {
+		if ancestor == t {
+			return fields
+		}
+	}
+	ancestors = append(ancestors[:len(ancestors):len(ancestors)], t)
 
 	// For each field
 	numField := t.NumField()
@@ -46,7 +52,7 @@ iteration:
 				continue
 			}
 			if jsonTag == "" {
-				fields = appendFields(fields, index, f.Type)
+				fields = appendFields(fields, index, f.Type, ancestors...)
 				continue iteration
 			}
 		}
@@ -57,9 +63,8 @@ iteration:
 			continue iteration
 		}
 
-		// Is it a private (lowercase) field?
-		firstRune, _ := utf8.DecodeRuneInString(f.Name)
-		if unicode.IsLower(firstRune) {
+		// Is it a private field? (`_x` is one too: not every unexported name starts with a lower-case letter)
+		if !f.IsExported() {
 			continue iteration
 		}
 
